@@ -28,6 +28,7 @@ import time
 import traceback
 
 VERIF = os.path.dirname(os.path.dirname(os.path.abspath(__file__)))
+OUTDIR = os.environ.get("VERIF_OUT", VERIF)   # evidence/ and replays/ go here (mutation runs use a scratch dir)
 REPO = os.path.realpath(os.environ.get("VERIF_REPO", "/repo"))
 
 PROPS = {
@@ -375,12 +376,12 @@ def run_property(pid, tier, seed, only=None, procs=None):
         if known_seen.get(e["id"], 0) > 0:
             print("KNOWN-FINDING: property=%s %s [%s; %d hits this run]" % (pid, e["what"], e["id"], known_seen[e["id"]]))
 
-    os.makedirs(os.path.join(VERIF, "replays", pid), exist_ok=True)
+    os.makedirs(os.path.join(OUTDIR, "replays", pid), exist_ok=True)
     for site, v in sorted(by_site.items()):
         doc = {"property": pid, "site": site, "features": v["features"], "message": v["msg"],
                "origin": v["origin"], "case": v["case"]}
         rel = os.path.join("replays", pid, case_hash(doc["case"])[:12] + "_" + _slug(site) + ".json")
-        with open(os.path.join(VERIF, rel), "w") as f:
+        with open(os.path.join(OUTDIR, rel), "w") as f:
             json.dump(doc, f, indent=1)
         print("VIOLATION property=%s replay=%s" % (pid, rel))
         print("  site=%s features=%s\n  %s\n  case=%s" % (site, json.dumps(v["features"]), v["msg"],
@@ -425,9 +426,9 @@ def run_property(pid, tier, seed, only=None, procs=None):
             evidence["coverage"].update(mod.extra_evidence(tier))
         except Exception as e:  # noqa
             errors.append("extra_evidence: %s" % e)
-    os.makedirs(os.path.join(VERIF, "evidence"), exist_ok=True)
+    os.makedirs(os.path.join(OUTDIR, "evidence"), exist_ok=True)
     if only is None:
-        with open(os.path.join(VERIF, "evidence", pid + ".json"), "w") as f:
+        with open(os.path.join(OUTDIR, "evidence", pid + ".json"), "w") as f:
             json.dump(evidence, f, indent=1, sort_keys=True)
     print("%s tier=%s seed=%s evaluations=%d distinct_nontrivial=%d violations=%d known=%d errors=%d wall=%.1fs" % (
         pid, tier, seed, evals, len(hashes), len(by_site), sum(1 for e in findings if known_seen.get(e["id"])),
